@@ -2065,9 +2065,9 @@ def _run_idscale(task, rec):
 def _run_large(task, rec):
     root, h = task['root'], LARGE_HISTORIES[task['history']]
     rec.sample(dict(part='large', root=root, history=h, blocks=LARGE[split_table(root['table'])[0]]))
-    thorough = root['tier'] == 'thorough'
+    thorough = root['tier'] == 'thorough' and '.' not in root['table']
     for i in range(1, len(h) + 1):
-        # every step compared; observers after the last step | thorough: in every state that is panel
+        # every step compared; observers after the last step | thorough (mixed typing): in every state that is panel
         if i == len(h) or (thorough and any(op[0] == 'panel' for op in h[:i])):
             if not _run_steps(root, h[:i], rec, 'large', observe_last=True, start=i - 1):
                 return
